@@ -459,7 +459,8 @@ func c14Worker(w *W) {
 			continue
 		}
 		e2e := w.Spec.Kind == "e2e"
-		interval := time.Hour
+		// the rotation period has no say in the retention rule (user-registered periods need not divide maxAge)
+		interval := []time.Duration{time.Hour, 24 * time.Hour, 7 * time.Hour, 90 * time.Minute, 10 * time.Minute, 168 * time.Hour}[ci%6]
 		if e2e {
 			interval = time.Second
 		}
